@@ -1,1 +1,1 @@
-import Ds
+import DsProofs.Shapley
